@@ -267,6 +267,12 @@ def fixed_templates():
         {'name': 'Doc', 'pk': 'auto', 'attrs': [S('title', 'str', True), S('k', unique=True), C('parts', 'Part', 'doc'),
                                                 C('refs', 'Doc', 'refd'), C('refd', 'Doc', 'refs')]},
         {'name': 'Part', 'pk': 'auto', 'attrs': [S('n'), R('doc', 'Doc', 'parts', True)]}]})
+    # several plain attributes per entity, an entity reachable as an unloaded reference that also holds a one-to-one column
+    T.append({'name': 'rich', 'entities': [
+        {'name': 'Owner', 'pk': ['id'], 'attrs': [S('id', required=True), S('name', 'str', True), S('age'),
+                                                   R('pass_', 'Pass', 'owner'), C('cars', 'Car', 'owner')]},
+        {'name': 'Pass', 'pk': ['id'], 'attrs': [S('id', required=True), S('num'), S('note', 'str'), R('owner', 'Owner', 'pass_')]},
+        {'name': 'Car', 'pk': ['id'], 'attrs': [S('id', required=True), S('label', 'str'), S('km'), R('owner', 'Owner', 'cars')]}]})
     return T
 
 
